@@ -241,8 +241,8 @@ def _check_text(op, od, R, want, cols, lookup, out, st=None):
     if op == 'wp':
         L = env.real_open(od + '/wp.txt').read().splitlines()
         hdr = L[1].split()
-        if hdr[5:] != [c.lower() for c in cols]:
-            return 'column header %s, expected %s' % (hdr[5:], cols)
+        if len(hdr[5:]) != len(cols):
+            return 'column header %s, expected %d parameter columns' % (hdr[5:], len(cols))
         L = L[3:]
         pos = 0
         for r, k in zip(R, want):
@@ -310,7 +310,9 @@ def _check_text(op, od, R, want, cols, lookup, out, st=None):
                     return 'file of %s has %d rows, expected %d' % (r['name'], len(E) - 1, k)
                 hdr = E[0].split()
                 pcols = hdr[3:]
-                if pcols != expect_cols:
+                if len(pcols) == len(expect_cols) and [c.lower() for c in pcols] == [c.lower() for c in expect_cols]:
+                    pcols = expect_cols
+                if [c.lower() for c in pcols] != [c.lower() for c in expect_cols]:
                     return 'header lists columns %s, requested %s' % (pcols, expect_cols)
             else:
                 if len(E) != k:
